@@ -30,7 +30,7 @@ ASSUMPTIONS = [
 MIN_NONTRIVIAL = {"quick": 150, "thorough": 1500}
 
 OPS = ["fc_full", "fc_compact", "produce_full", "produce_compact", "symmetrize", "symmetrize_sg", "cutoff", "nac_wang", "nac_gonze", "nac_none", "masses",
-       "dataset", "generate_displacements", "copy", "nac_default", "nac_gonze_cut"]  # nac_default: dict without 'method' (documented default Gonze-Lee); nac_gonze_cut: with G_cutoff and Lambda
+       "dataset", "generate_displacements", "copy", "nac_default", "nac_gonze_cut", "fc_same_object"]  # nac_default: dict without 'method' (documented default Gonze-Lee); nac_gonze_cut: with G_cutoff and Lambda
 INITS = ["none", "wang", "gonze"]
 CELLS = ["rocksalt", "cscl", "zincblende"]
 
@@ -122,9 +122,20 @@ class World:
         ev = {"op": name}
         try:
             if name == "fc_full":
-                ph.force_constants = self.hand_in("force_constants(full)", np.array(self.model(), dtype="double", order="C"))
+                self.last_fc = self.hand_in("force_constants(full)", np.array(self.model(), dtype="double", order="C"))
+                ph.force_constants = self.last_fc
             elif name == "fc_compact":
-                ph.force_constants = self.hand_in("force_constants(compact)", np.array(self.model()[self.p2s], dtype="double", order="C"))
+                self.last_fc = self.hand_in("force_constants(compact)", np.array(self.model()[self.p2s], dtype="double", order="C"))
+                ph.force_constants = self.last_fc
+            elif name == "fc_same_object":
+                # the caller updates its own array in place and assigns the SAME object again (documented: no copy is made, so this is how
+                # a caller changes the constants without reallocating); the object must answer for the new values
+                arr = getattr(self, "last_fc", None)
+                if arr is None or arr is not ph.force_constants:
+                    arr = ph.force_constants
+                arr *= 1.04
+                self.handed_in = [(l_, a_, (zlib.crc32(np.ascontiguousarray(a_).tobytes()) if a_ is arr else crc_)) for l_, a_, crc_ in self.handed_in]
+                ph.force_constants = arr
             elif name in ("produce_full", "produce_compact"):
                 ph.produce_force_constants(calculate_full_force_constants=(name == "produce_full"))
             elif name == "symmetrize":
